@@ -81,7 +81,7 @@ def run(tier):
         rep.notes.append("Handler.tla with user Stop at every point, shape %s: %d distinct states; once a party is done / aborted its result, error kind and culprits never change and later messages change nothing" % (shape, r["distinct"]))
     # ---- 2. lockset layer: table extracted from the working tree, TLC predicts which pairs can race
     pairs = []
-    for typ, path in (("MultiHandler", "/repo/pkg/protocol/handler.go"), ("TwoPartyHandler", "/repo/pkg/protocol/twoparty.go")):
+    for typ, path in (("MultiHandler", vlib.REPO + "/pkg/protocol/handler.go"), ("TwoPartyHandler", vlib.REPO + "/pkg/protocol/twoparty.go")):
         table = lockset_table(path, typ)
         if len(table) < 4:
             raise vlib.Inconclusive("could not extract the method table of %s" % typ)
